@@ -552,6 +552,17 @@ func leakedStacks() string {
 // make progress.
 func (s *Sim) DeadlockSeen() bool { return s.res.Deadlock }
 
+// FaultCount returns the number of injected faults that have fired so far.
+func (s *Sim) FaultCount() int {
+	s.mu.Lock()
+	defer s.mu.Unlock()
+	n := 0
+	for _, v := range s.res.Faults {
+		n += v
+	}
+	return n
+}
+
 // Capped reports whether the step cap was hit.
 func (s *Sim) Capped() bool { return s.res.Capped }
 
